@@ -52,7 +52,7 @@ class WorldC01(World):
     WALL = {'quick': 50, 'thorough': 560}
     STATE_CHANGING = ('mkmode', 'mkspecies', 'edit', 'swap')
     STATE_RULE = 'per species: (mode classes in its five slots, modes shared with another species, edits since construction bucket)'
-    PROBES = ('edit-imaginary-substitute', 'edit-wavenumbers', 'edit-wavenumbers-in-place', 'integer-wavenumbers', 'edit-spin', 'edit-qrrho-parameter', 'mode-shared-by-two-species', 'constant-mode-additivity-only', 'lsr-electronic-mode', 'textbook-harmonic-q-both-zeros',
+    PROBES = ('edit-imaginary-substitute', 'edit-wavenumbers', 'edit-wavenumbers-in-place', 'integer-wavenumbers', 'edit-spin', 'edit-qrrho-parameter', 'mode-shared-by-two-species', 'constant-mode-additivity-only', 'lsr-electronic-mode', 'textbook-harmonic-q-both-zeros', 'option-through-species', 'rot-temperatures-as-array',
               'swap-mode', 'imaginary-mode-present', 'monatomic-rotor', 'linear-rotor', 'trans-1-or-2-dof', 'point-group-label',
               'debye-mode', 'einstein-mode', 'qrrho-mode', 'low-T-regime', 'high-T-regime', 'verbose-sum', 'pressure-shift',
               'textbook-harmonic', 'textbook-trans', 'textbook-rotor', 'textbook-elec', 'textbook-einstein', 'textbook-debye-Cv', 'textbook-qrrho', 'geometry-rigid-motion')
@@ -126,7 +126,10 @@ class WorldC01(World):
             rt = {'monatomic': [], 'linear': [round(10 ** u(-2, 2), 4)],
                   'nonlinear': [round(10 ** u(-2, 2), 4) for _ in range(3)]}[geo]
             sym = rng.choice([1, 2, 3, 6, 12]) if rng.random() < 0.7 else rng.choice(sorted(POINT_GROUPS))
-            return {'symmetrynumber': sym, 'rot_temperatures': rt, 'geometry': geo}
+            out = {'symmetrynumber': sym, 'rot_temperatures': rt, 'geometry': geo}
+            if rng.random() < 0.3:
+                out['rt_as'] = 'array'
+            return out
         if kind == 'GroundStateElec':
             return {'potentialenergy': round(u(-40, 0), 4), 'spin': rng.choice([0, 0.5, 1, 1.5, 2])}
         if kind == 'LSR':
@@ -205,7 +208,11 @@ class WorldC01(World):
             if all(isinstance(w, int) for w in params['vib_wavenumbers']):
                 self.ctx.probe('integer-wavenumbers')
         if kind == 'RigidRotor':
-            p['rot_temperatures'] = list(p['rot_temperatures'])
+            if p.pop('rt_as', 'list') == 'array' and p['rot_temperatures']:
+                p['rot_temperatures'] = self.np.array(p['rot_temperatures'], dtype=float)
+                self.ctx.probe('rot-temperatures-as-array')
+            else:
+                p['rot_temperatures'] = list(p['rot_temperatures'])
         return self.cls[kind](**p)
 
     def _add_mode(self, md):
@@ -403,6 +410,22 @@ class WorldC01(World):
                 raise Violation('S(P)', '%s at T=%r: S(P=%r) - S(P=%r) = %r, expected %r' % (
                     what, T, P2, P, s2 - v['SoR'], -math.log(P2 / P)))
         self._check_verbose(sp, sl, kinds, v, T, P, what, tol)
+        # options addressed to one mode travel through the species unchanged (also when they are switched OFF)
+        if kinds['vib'] == 'HarmonicVib':
+            ctx.probe('option-through-species')
+            mq = float(self.mode[sl['vib']].get_q(T=T, include_ZPE=False))
+            qv = np.asarray(self.real(sp.get_q, T=T, P=P, include_ZPE=False, verbose=True,
+                                      _what='get_q(include_ZPE=False, verbose=True)'), dtype=float)
+            if math.isfinite(mq) and 1e-280 < abs(mq) < 1e280 and abs(qv[1] - mq) > 1e-9 * abs(mq):
+                raise Violation('verbose-product', '%s: get_q(include_ZPE=False) reports %r for the vibrational mode; the mode '
+                                'itself, asked with include_ZPE=False, reports %r' % (what, qv[1], mq))
+        if kinds['elec'] == 'GroundStateElec' and kinds['vib'] != 'QRRHOVib' and abs(self.mp[sl['elec']]['potentialenergy']) / (8.617e-5 * T) < 600:
+            me = float(self.mode[sl['elec']].get_q(T=T, ignore_q_elec=False))
+            qv = np.asarray(self.real(sp.get_q, T=T, P=P, ignore_q_elec=False, verbose=True,
+                                      _what='get_q(ignore_q_elec=False, verbose=True)'), dtype=float)
+            if math.isfinite(me) and abs(qv[3] - me) > 1e-9 * abs(me):
+                raise Violation('verbose-product', '%s: get_q(ignore_q_elec=False) reports %r for the electronic mode; the '
+                                'mode itself reports %r' % (what, qv[3], me))
         # (a) textbook forms of the closed-form modes
         for slot, mid in sl.items():
             self._textbook(mid, T, P)
@@ -558,6 +581,16 @@ class WorldC01(World):
         if abs(ref['mw'] - got['mw']) > 1e-9 or ref['elements'] != got['elements']:
             raise Violation('geometry-invariant', '%s: molar mass / composition changed (%r, %r) -> (%r, %r)' % (
                 a['mol'], ref['mw'], ref['elements'], got['mw'], got['elements']))
+        for side, g in (('as bundled', ref), ('moved / permuted', got)):
+            if abs(g['sp_mw'] - ref['mw']) > 1e-9 or g['sp_elements'] != ref['elements'] or g['sp_geometry'] != ref['geometry']:
+                raise Violation('geometry-invariant', '%s (%s): a species built from the Atoms object has molar mass %r, '
+                                'composition %r, geometry %r; the molecule has %r, %r, %r' % (
+                                    a['mol'], side, g['sp_mw'], g['sp_elements'], g['sp_geometry'], ref['mw'],
+                                    ref['elements'], ref['geometry']))
+        if abs(ref['sp_S'] - got['sp_S']) > 1e-6 * max(1.0, abs(ref['sp_S'])) or \
+                abs(ref['sp_G'] - got['sp_G']) > 1e-6 * max(1.0, abs(ref['sp_G'])):
+            raise Violation('geometry-invariant', '%s: S/R, G/RT of the species built from the geometry (%r, %r) became (%r, %r) '
+                            'after a rigid motion / permutation' % (a['mol'], ref['sp_S'], ref['sp_G'], got['sp_S'], got['sp_G']))
         return a['mol']
 
     def _geom(self, atoms):
@@ -565,8 +598,14 @@ class WorldC01(World):
         geo = self.real(self.rot.get_geometry_from_atoms, atoms, _what='get_geometry_from_atoms')
         rt = self.real(self.rot.get_rot_temperatures_from_atoms, atoms, geometry=geo, _what='get_rot_temperatures_from_atoms')
         formula = atoms.get_chemical_formula(mode='hill')
+        # the documented route from a geometry to a species: every mode reads what it needs from the Atoms object
+        sp = self.real(self.sm.StatMech, atoms=atoms, symmetrynumber=1, vib_wavenumbers=[1000.0], potentialenergy=-1.0,
+                       spin=0, _what='StatMech(atoms=..., **presets[idealgas])', **self.sm.presets['idealgas'])
         return {'geometry': geo, 'rot': [float(x) for x in rt], 'mw': float(get_molecular_weight(formula)),
-                'elements': parse_formula(formula)}
+                'elements': parse_formula(formula), 'sp_mw': float(sp.trans_model.molecular_weight),
+                'sp_elements': dict(sp.elements), 'sp_geometry': sp.rot_model.geometry,
+                'sp_rot': sorted(float(x) for x in sp.rot_model.rot_temperatures),
+                'sp_S': float(sp.get_SoR(T=500.0, P=1.0)), 'sp_G': float(sp.get_GoRT(T=500.0, P=1.0))}
 
     def abstract_state(self):
         users = {}
